@@ -20,6 +20,7 @@ from concurrent.futures import ThreadPoolExecutor
 
 import yvlib
 from yvlib import hx, log
+from props import C10_r9
 
 LEVEL = "proof"
 TRUSTED = [
@@ -34,7 +35,10 @@ TRUSTED = [
 ASSUMPTIONS = [
     "feature verif_hooks does not change the behaviour of the forks (hooks are add-only)",
     "gc fork: schedule independence is proved for the repaired tracing tables (marks_fixed); for today's tables it is "
-    "refuted in Coq (map keys, bound methods) - programs of those two shapes are not generated",
+    "refuted in Coq (map keys, bound methods); both defects are fixed in /repo since, the two shapes are generated again "
+    "(family `readmitted`, `arith` hash_tuples) and compared between builds like every other program",
+    "round 9: the families unwind_switch / unwind_random (try/finally x fiber switch x abrupt exits, inside OPEN known classes "
+    "of C08/C09) have NO single-build oracle here: only agreement between the builds is demanded",
     "opcodes/class_lookup forks: unreachable for compiler-produced bytecode accepted by C04's verifier",
 ]
 
@@ -993,6 +997,10 @@ def canon(rec):
     """what must be identical in every build: printed lines, outcome, messages; addresses masked"""
     k, v = rec.result
     mask = lambda s: ADDR.sub("0xADDR", s)
+    if k == "panic":
+        # every build panics (compared by kind and text): the numbers of a Rust panic message that stem from stale state
+        # (`index out of bounds: the len is 197 but the index is 32767` vs `... 18446744073709518063`) are not compared
+        v = re.sub(r"\d+", "N", v)
     return ([mask(l) for l in rec.output], k, mask(v), [mask(m) for m in rec.messages])
 
 
@@ -1088,7 +1096,62 @@ def check_config_model(ctx, cfgs, bins):
     ctx.cov["config_model_checked"] = len(rows)
 
 
-def differential(ctx, cfgs, n_generated, label):
+def round9_programs(ctx, aim):
+    """round 9 families (compared between builds only): unwind_switch / unwind_random / readmitted / churn; `aim` (from a
+    broken debug-only-site table) multiplies the aimed families and repeats the aimed older directed families"""
+    quick = ctx.quick()
+    progs = C10_r9.UnwindSwitch(ctx.rng).programs(40 if quick else 120) + C10_r9.readmitted(ctx.rng) + C10_r9.churn_programs(ctx.rng, quick)
+    if aim:
+        if "unwind_switch" in aim or "unwind_random" in aim:
+            for rnd in range(2):
+                extra = C10_r9.UnwindSwitch(ctx.rng).programs(60)
+                for p in extra:
+                    p["name"] += ":aimed%d" % rnd
+                progs += extra
+        if "churn" in aim:
+            extra = C10_r9.churn_programs(ctx.rng, False)
+            for p in extra:
+                p["name"] += ":aimed"
+            progs += extra
+        older = [p for p in Directed(ctx.rng).programs() if p["kinds"][0] in aim]
+        for p in older:
+            p["name"] += ":aimed"
+        progs += older
+    return progs
+
+
+def accounting_probe(ctx, cfgs, bins):
+    """size-independent oracle for the allocation accounting (see C10_r9.accounting_lines): after the final full
+    collection bytes_allocated and the object count must not depend on the amount of garbage the run produced, and must be
+    the same in every build.  A drift is a broken correspondence (the pacing model `gc_schedule` assumes the accounting
+    returns to the live size); the search then finds the program on which the builds split (churn family)."""
+    lines, meta = C10_r9.accounting_lines()
+    rows = {}
+    for (p, f), b in zip(cfgs, bins):
+        if (p, f) not in (("debug", ()), ("release", ())):
+            continue
+        recs = yvlib.run_harness(b, lines, False, 2 * TIMEOUT_MS)
+        for (kind, n), r in zip(meta, recs):
+            s = r.tagged("S")
+            if r.result[0] != "ok" or not s or r.output[-1:] != ["true"]:
+                rows.setdefault(kind, {})[(cfg_name(p, f), n)] = None
+                continue
+            rows.setdefault(kind, {})[(cfg_name(p, f), n)] = (int(s[-1][0]), int(s[-1][2]))
+    drift = []
+    for kind, d in rows.items():
+        vals = {v for v in d.values() if v is not None}
+        if len(vals) > 1:
+            drift.append("%s: %s" % (kind, sorted((k[0], k[1], v) for k, v in d.items())))
+    ctx.cov["accounting_probe"] = {"kinds": len(rows), "measurements": sum(len(d) for d in rows.values()),
+                                   "unmeasured": sum(1 for d in rows.values() for v in d.values() if v is None),
+                                   "drifting": len(drift)}
+    if drift:
+        ctx.corr_broken.append("allocation accounting drifts: (bytes_allocated, objects) after the final full collection depends on the "
+                               "amount of garbage produced or on the build (Heap::allocate_raw / sweep / collect): " + "; ".join(drift[:3]))
+    return drift
+
+
+def differential(ctx, cfgs, n_generated, label, aim=None):
     bins = build_all(ctx, cfgs)
     check_config_model(ctx, cfgs, bins)
     repo, skipped = repo_programs()
@@ -1102,6 +1165,7 @@ def differential(ctx, cfgs, n_generated, label):
             kind_hist[k] = kind_hist.get(k, 0) + 1
         progs.append({"name": "gen:%d" % i, "line": "run stats=1 " + hx(src), "src": src, "snippets": snippets, "kinds": kinds})
     directed = Directed(ctx.rng).programs()
+    directed += round9_programs(ctx, aim)
     progs += directed
     for p in directed:
         kind_hist["dir:" + p["kinds"][0]] = kind_hist.get("dir:" + p["kinds"][0], 0) + 1
@@ -1209,6 +1273,11 @@ def differential(ctx, cfgs, n_generated, label):
     c["generated_snippet_kinds"] = kind_hist
     c["run_s_" + label] = round(run_s, 1)
     c.setdefault("samples", []).extend(samples)
+    if label != "search" or (aim and "churn" in aim):
+        try:
+            accounting_probe(ctx, cfgs, bins)
+        except Exception as e:      # evidence only: never let the probe take the check down
+            ctx.notes.append("accounting probe skipped: %s" % e)
     stream_differential(ctx, cfgs, bins)
     c["rule"] = ("programs = every script under yarel/tests/scripts (those with `import` through the harness' module "
                  "loader with all suite modules offered) + generated programs (2-8 independent snippets drawn from "
@@ -1349,6 +1418,12 @@ def run(ctx):
         pass
     ctx.cov["cfg_sites"] = man.get("cfg_sites")
     ctx.cov["fiber_sites"] = man.get("fiber_sites")
+    ctx.cov["debug_sites"] = man.get("debug_sites")
+    unknown = C10_r9.broken_debug_sites(yvlib.COQ)
+    if unknown:
+        ctx.cov["debug_sites_unknown"] = ["%s::%s  %s" % t for t in unknown]
+        ctx.notes.append("debug-only constructs the model does not know (C10_debug_sites_known): " +
+                         "; ".join("%s::%s `%s`" % t for t in unknown[:6]))
 
 
 TRIPLE = re.compile(r'\("([^"]*)",\s*"([^"]*)",\s*"([^"]*)"')
@@ -1416,5 +1491,13 @@ def search(ctx):
     feats = broken_fork_features()
     cfgs = search_configurations(feats)
     ctx.notes.append("search: forks aimed at %s; configurations %s" % (feats or "(none identified)", [cfg_name(*c) for c in cfgs]))
-    differential(ctx, cfgs, 60, "search")
+    # a new / changed debug-only construct: aim the families at the function it sits in
+    unknown = C10_r9.broken_debug_sites(yvlib.COQ)
+    aim = C10_r9.aim_families(unknown)
+    if any("accounting" in x for x in ctx.corr_broken):
+        aim += [x for x in ("churn", "reuse", "ret_finally") if x not in aim]
+    if aim:
+        ctx.notes.append("search: aimed at %s -> families %s" % (
+            "; ".join("%s::%s" % (a, b) for a, b, _ in unknown) or "the allocation accounting", aim))
+    differential(ctx, cfgs, 60, "search", aim=aim or None)
     ctx.cov["search_s"] = round(time.time() - t0, 1)
